@@ -50,7 +50,9 @@ var propCfgs = map[string]*PropCfg{
 	"C16": {ID: "C16", Level: "proof", Safety: true, Tagged: true, Roots: []string{
 		`^meta\..*\.(UnmarshalText|UnmarshalJSON|UnmarshalBinary|ParseString|MarshalText|MarshalJSON|MarshalBinary|String)$`,
 		`^meta/canon\..*\.(UnmarshalText|MarshalText)$`, `^imagetype\.\(\*ImageType\)\.UnmarshalText$`, `^imagetype\.ImageType\.MarshalText$`,
-		`^imagehash\..*\.(Decode|Encode|UnmarshalText|MarshalText|UnmarshalJSON|MarshalJSON)$`, `^meta\.(UUIDFromString|UUIDFromBytes|ParseAperture|parse.*)$`}, Design: "DESIGN.md 5 C16"},
+		`^imagehash\..*\.(Decode|Encode|UnmarshalText|MarshalText|UnmarshalJSON|MarshalJSON)$`, `^meta\.(UUIDFromString|UUIDFromBytes|ParseAperture|parse.*)$`,
+		`^(meta|meta/canon|imagetype|imagehash)\..*\.(DecodeMsg|EncodeMsg|MarshalMsg|UnmarshalMsg|Msgsize)$`, `^meta\.(NewExposureBias|NewFocalLength|NewAperture|NewDimensions|NewMeteringMode|NewExposureMode|NewExposureProgram|NewFlash)$`,
+		`^meta/canon\..*\.(String|UnmarshalText|MarshalText)$`, `^meta\.Dimensions\.(Size|AspectRatio|Orientation)$`}, Design: "DESIGN.md 5 C16"},
 	"C17": {ID: "C17", Level: "proof", Safety: true, Tagged: true, Roots: []string{
 		`\.(String|Extension|TagName|TagString)$`, `^imagetype\.FromString$`, `^xmp/xmpns\.(Identify.*|.*FromString)$`}, Design: "DESIGN.md 5 C17"},
 	"C19": {ID: "C19", Level: "proof", Tagged: true, Design: "DESIGN.md 5 C19"},
